@@ -7,6 +7,7 @@
    behaviour once and prints it at its end. *)
 EXTENDS Integers, Sequences, FiniteSets, Json, TLC
 
+CONSTANT Separate    \* TRUE: logs retired and database reopened between the layers, so that each layer gets a table file of its own
 CONSTANT NLayers     \* 2: enumerated exhaustively (model-checking mode); 3: sampled (simulation mode) - three files can form a CHAIN
                      \* (the first overlaps the requested range, the second only the first, the third only the second)
 Keys == <<"k1", "k2", "k3">>
@@ -47,7 +48,13 @@ WriteKey == /\ phase = "write" /\ idx <= N
                   \/ UNCHANGED <<abs, h, cov>>
             /\ idx' = idx + 1 /\ UNCHANGED <<phase, layer>>
 FlushLayer == /\ phase = "write" /\ idx = N + 1
-              /\ UNCHANGED <<abs, cov>> /\ h' = Append(h, Rec("flush", <<>>))        \* (abs' must be fixed before Rec reads it)
+              /\ UNCHANGED <<abs, cov>>                                            \* (abs' must be fixed before Rec reads it)
+              \* kevo's flush of the active table leaves it in place, and a reopen rebuilds it from the log: a later flush would
+              \* write the earlier layers again (cumulative files).  Separate: the logs are retired and the database reopened
+              \* between the layers
+              /\ h' = IF Separate /\ layer < NLayers
+                      THEN h \o <<Rec("flush", <<>>), Rec("retire", <<>>), Rec("reopen", <<>>)>>
+                      ELSE Append(h, Rec("flush", <<>>))
               /\ IF layer < NLayers THEN layer' = layer + 1 /\ idx' = 1 /\ phase' = "write"
                  ELSE phase' = "flushed2" /\ UNCHANGED <<layer, idx>>
 \* three layers: only the range compactions whose selection needs a second closure pass (the rest of that space is sampled
